@@ -1583,6 +1583,8 @@ class LangServer:
         try:
             with open(config_path) as jsonfile:
                 config_dict = json5.load(jsonfile)
+                if not isinstance(config_dict, dict):
+                    raise ValueError("the configuration must be a JSON object")
 
                 # Include and Exclude directories
                 self._load_config_file_dirs(config_dict)
